@@ -68,6 +68,23 @@ def judgeMisc (op : String) (out : List String) : P Bool := do
     -- unimplemented powers the destination is left untouched, which is observable when it is aliased to the source
     if k % 4 < 2 || al == "a" then expectToks "g2_frob (model)" (curveG2.strJ (Impl.g2FrobInto a a k)) out
     pure true
+  | "g1_mul" | "g1_mula" =>
+    -- `G1::multiply` on a 256-bit scalar is `multiply_endomorphism`: the Spec value as for every `mul`, and the model of
+    -- the whole method (GLV split, two recodings, interleaved loop; Impl/FastMul.lean) must give the same raw triple
+    let a ← (if op == "g1_mul" then (do let a ← curveG1.rdJ; pure a) else (do let a ← curveG1.rdA; pure (Gen.Proj.from_affine (affOf a))))
+    let k ← nextHex
+    if op == "g1_mul" then let _ ← next
+    curveG1.expectJ op (Pt.smulFast k (Pt.ofJac a)) out
+    expectToks (op ++ " (model)") (curveG1.strJ (Impl.g1MultiplyEndomorphism a k)) out
+    pure true
+  | "g2_mul" | "g2_mula" =>
+    -- `G2::multiply` on a 256-bit scalar is `multiply_frobenius`
+    let a ← (if op == "g2_mul" then (do let a ← curveG2.rdJ; pure a) else (do let a ← curveG2.rdA; pure (Gen.Proj2.from_affine (affOf a))))
+    let k ← nextHex
+    if op == "g2_mul" then let _ ← next
+    curveG2.expectJ op (Pt.smulFast k (Pt.ofJac a)) out
+    expectToks (op ++ " (model)") (curveG2.strJ (Impl.g2MultiplyFrobenius a k)) out
+    pure true
   | "wnaf" =>
     let bits ← nextNat; let w ← nextNat; let k ← nextHex
     -- model of the code as it is now: the add-back keeps its carry (the bit re-enters after the shift)
